@@ -432,8 +432,9 @@ def rp_setter_cases(chk, drv, fn):
     rng = chk.rng
     S = 16000
     dfl = [[k, int(round(v * S))] for k, v in defaults.items() if k in ('rMin', 'rMax', 'kN0', 'deltaRTi') and abs(v * S - round(v * S)) < 1e-9]
-    exprs = {'rMin+4.5': (['rMin'], 4.5), 'rMax-2.25': (['rMax'], None), 'rMin+rMax': (['rMin', 'rMax'], 0.0), 'deltaRTi+rMin+0.5': (['deltaRTi', 'rMin'], 0.5)}
-    del exprs['rMax-2.25']                      # the model's expressions are sums
+    exprs = {'rMin+4.5': (['rMin'], 4.5), 'rMin+rMax': (['rMin', 'rMax'], 0.0), 'deltaRTi+rMin+0.5': (['deltaRTi', 'rMin'], 0.5),
+             'rp+0.5': (['rp'], 0.5), 'rp+rp': (['rp', 'rp'], 0.0), 'rp+deltaRTi': (['rp', 'deltaRTi'], 0.0)}       # the model's expressions are sums
+    rp_exprs = [e for e in exprs if not e.startswith('rp')]
     for it in range(chk.n(60, 600)):
         items = []
         ends = [('both', 'both', 'rMin', 'rMax', 'none')[it % 5]][0]
@@ -445,18 +446,24 @@ def rp_setter_cases(chk, drv, fn):
         if kind == 'number':
             items.append(('rp', rng.choice([3.25, 5.0, 6.5, 11.0])))
         elif kind == 'expr':
-            ok = [e for e, (d, _) in exprs.items() if all(x in dict(items) or x == 'deltaRTi' for x in d)]
+            ok = [e for e in rp_exprs if all(x in dict(items) or x == 'deltaRTi' for x in exprs[e][0])]
             if ok:
                 items.append(('rp', rng.choice(ok)))
         items.append(('deltaRTi', rng.choice([1.5, 2.0])))
         if rng.random() < 0.5:
             items.append(('kN0', rng.choice([0.0625, 0.125])))
+        reads_rp = None
+        if it % 3 == 1 and (kind != 'absent' or ends == 'both'):
+            # another constant given by an expression that READS rp (finding F29): it sees the rp of the file (or, without one, the
+            # middle of the domain), never a transient value
+            reads_rp = ('deltaRN0', rng.choice(['rp+0.5', 'rp+rp', 'rp+deltaRTi']))
+            items.append(reads_rp)
         items.append(('npts', [8, 8, 8, 8]))
         rng.shuffle(items)
         json.dump(dict(items), open(fn, 'w'))
         try:
             c = get_constants(fn)
-            real = {k: getattr(c, k) for k in ('rMin', 'rMax', 'rp', 'deltaRTi', 'kN0')}
+            real = {k: getattr(c, k) for k in ('rMin', 'rMax', 'rp', 'deltaRTi', 'kN0') + (('deltaRN0',) if reads_rp else ())}
         except AssertionError:
             real = None
         data = []
@@ -496,6 +503,12 @@ def rp_setter_cases(chk, drv, fn):
             if real['rp'] != exp_rp:
                 chk.fail('C18:constants-rp', 'rp is not what the parameter file gives (or, without rp in the file, the middle of the domain)',
                          case, expected=exp_rp, actual=real['rp'])
+            elif reads_rp:
+                deps, cst = exprs[reads_rp[1]]
+                exp_v = sum(real[x] for x in deps) + cst
+                if real['deltaRN0'] != exp_v:
+                    chk.fail('C18:constants-expr', 'an expression of the parameter file that reads rp (%s) was not evaluated with the rp of the '
+                             'constants' % reads_rp[1], case, expected=exp_v, actual=real['deltaRN0'])
         chk.count('constants with setters: ends %s, rp %s' % (ends, kind))
         chk.case(('rp', tuple(k for k, _ in items), kind), nontrivial=True, sample=dict(case, rp=real and real['rp']) if it == 0 else None)
 
